@@ -382,6 +382,11 @@ func (hp *HTTPProxy) pacProxy(r *http.Request) (*url.URL, error) {
 	if err != nil {
 		return nil, err
 	}
+	if p.Mode == pac.SOCKS || p.Mode == pac.SOCKS4 {
+		// Neither the transport nor the CONNECT path can speak these; the transport
+		// would even treat such a URL as a plain HTTP proxy.
+		return nil, fmt.Errorf("unsupported proxy type %s in PAC result %q", p.Mode, s)
+	}
 
 	proxyURL := p.URL()
 
